@@ -5,8 +5,9 @@
 (* Shape T + P.  A *case* is a pair of module trees (runtime R, stubs S)   *)
 (* over the names a, b (classes carry the inner names u, v), described by  *)
 (* two *cells* and the module docstring mode.  For every case the machine  *)
-(* below is run once per (placement, discovery order) - ten runs in one    *)
+(* below is run once per (placement, discovery order, request form) - 17 in *)
 (* behaviour - and follows the code statement by statement:                *)
+(*   finder.find_spec (stubs package lookup)     FindSpec                  *)
 (*   loader._load_module_path / _load_submodule  LoadFirst, LoadSecond     *)
 (*   mixins.set_member (implicit merge)          CatchSet                  *)
 (*   loader._load_package (explicit merge)       MergeTop, CatchTop        *)
@@ -189,9 +190,20 @@ InitHeap(ca, cb, md) ==
 \* ---- the runs ----------------------------------------------------------------------------------
 Places == <<"sub", "top", "init", "spkg", "ssub">>
 Orders == <<"rt", "st">>
-NRuns == 10
-PlaceOf(i) == Places[((i - 1) \div 2) + 1]
-OrderOf(i) == Orders[((i - 1) % 2) + 1]
+\* request form of griffe.load(objspec): the top-level name, the dotted path to the module, the dotted path to an
+\* object in it (for a top-level module the first two coincide)
+Forms(p) == IF p \in {"sub", "ssub"} THEN <<"top", "mod", "obj">> ELSE <<"top", "obj">>
+\* both listing orders for the top-level request; the dotted forms (resolved by find_spec before any directory is
+\* listed) with the .py-first order
+RunsOf(p) == <<[p |-> p, o |-> "rt", r |-> "top"], [p |-> p, o |-> "st", r |-> "top"]>>
+               \o [i \in 1..(Len(Forms(p)) - 1) |-> [p |-> p, o |-> "rt", r |-> Forms(p)[i + 1]]]
+RunTable == RunsOf("sub") \o RunsOf("top") \o RunsOf("init") \o RunsOf("spkg") \o RunsOf("ssub")
+NRuns == Len(RunTable)           \* 17 runs per case
+PlaceOf(i) == RunTable[i].p
+OrderOf(i) == RunTable[i].o
+ReqOf(i) == RunTable[i].r
+ModPath(p) == IF p \in {"sub", "ssub"} THEN <<"pkg", "mod">> ELSE <<"mod">>
+StubsDir(p) == CASE p = "spkg" -> <<"mod", "-stubs">> [] p = "ssub" -> <<"pkg", "-stubs">> [] OTHER -> <<>>
 
 VARIABLES cellA, cellB, mdoc,          \* the case
           run, heap, slot, ag, exc, err, raised, derefs, tr,   \* the current run (tr: merge steps entered, in order)
@@ -202,7 +214,7 @@ vars == <<casevars, run, heap, slot, ag, exc, err, raised, derefs, tr, results, 
 Step(op, o, s, n) == [op |-> op, o |-> o, s |-> s, n |-> n]
 Plain(op) == Step(op, Nil, Nil, "")
 RunAgenda(i) ==
-  <<Plain("LoadFirst"), Plain("LoadSecond")>>
+  <<Plain("FindSpec"), Plain("LoadFirst"), Plain("LoadSecond")>>
     \o (IF PlaceOf(i) = "sub" THEN <<>> ELSE <<Plain("MergeTop")>>)
     \o <<Plain("Project")>>
 Head1 == ag[1]
@@ -285,6 +297,18 @@ UCx == UNCHANGED <<casevars, preR, preS, ref, tgt0, results, pc, run>>
 UC == UCx /\ UNCHANGED tr
 Enter(op, s) == tr' = Append(tr, [op |-> op, n |-> s[2], i |-> s[3]])   \* the merger function called, on which stub object
 Keep(vs) == UNCHANGED vs
+
+\* the objspec of this run: names, split on "."
+ReqPath(i) ==
+  CASE ReqOf(i) = "top" -> <<ModPath(PlaceOf(i))[1]>>
+    [] ReqOf(i) = "mod" -> ModPath(PlaceOf(i))
+    [] OTHER -> ModPath(PlaceOf(i)) \o (IF ref.self.ord = <<>> THEN <<>> ELSE <<ref.self.ord[1]>>)
+FindSpec ==       \* ModuleFinder.find_spec: top_module_name = module.split(".", 1)[0]; with find_stubs_package (the
+  /\ At1("FindSpec")   \* -stubs placements) stubs = find_package(top_module_name + "-stubs"), whatever the request form
+  /\ LET wanted == PlaceOf(run) \in {"spkg", "ssub"}
+         found == <<ReqPath(run)[1], "-stubs">> = StubsDir(PlaceOf(run)) IN
+       ag' = IF wanted /\ ~found THEN <<Plain("LoadFirst"), Plain("Project")>> ELSE Rest   \* no stubs: runtime package only
+  /\ UC /\ Keep(<<heap, slot, exc, err, raised, derefs>>)
 
 LoadFirst ==      \* _load_module_path of the file met first (only a sub-module listing can meet the .pyi first)
   /\ At1("LoadFirst")
@@ -425,7 +449,7 @@ Project ==        \* end of griffe.load(): observe, then start the next (placeme
   /\ LET t == IF err = "none" THEN TreeOf(heap, <<slot, "", "">>) ELSE EmptyTree
          tg == TgtOf(heap)
          cl == Clauses(t, slot, tg, err, raised, derefs) IN
-       results' = Append(results, [place |-> PlaceOf(run), order |-> OrderOf(run), file |-> slot, err |-> err,
+       results' = Append(results, [place |-> PlaceOf(run), order |-> OrderOf(run), req |-> ReqOf(run), file |-> slot, err |-> err,
                                    raised |-> raised, derefs |-> derefs, cl |-> cl, trace |-> tr,
                                    tree |-> IF t = ref THEN <<>> ELSE <<t>>,      \* <<>>: equal to the reference
                                    tgt |-> IF tg = tgt0 THEN <<>> ELSE <<tg>>])
@@ -436,7 +460,7 @@ Project ==        \* end of griffe.load(): observe, then start the next (placeme
   /\ slot' = "nil" /\ exc' = FALSE /\ err' = "none" /\ raised' = FALSE /\ derefs' = {} /\ tr' = <<>>
   /\ UNCHANGED <<casevars, preR, preS, ref, tgt0>>
 
-Next == \/ LoadFirst \/ LoadSecond \/ CatchSet \/ MergeTop \/ CatchTop \/ Catch \/ MergeScope
+Next == \/ FindSpec \/ LoadFirst \/ LoadSecond \/ CatchSet \/ MergeTop \/ CatchTop \/ Catch \/ MergeScope
         \/ Doc \/ Ovl \/ OvlItem \/ Mem \/ MemItem \/ Fun \/ Attr \/ Project
 
 \* ---- case space ----------------------------------------------------------------------------------
